@@ -121,3 +121,43 @@ where T: Bridge, T::O: OEuc {
     for (i, x) in diag.iter().enumerate() { if i < m.min(n) { d.set(i, i, x.clone()) } }
     u.mul(&d).mul(&v)
 }
+
+// ------------------------------------------------------------ planted chain complexes
+
+/// A chain complex C_0 -> C_1 -> ... -> C_L with known homology: d_i = P_{i+1}^-1 E_i P_i where E_i carries
+/// the diagonal D_i in rows 0..r_i and columns n_i - r_i .. n_i and r_{i-1} + r_i <= n_i.
+pub struct PlantedComplex<O> {
+    pub dims: Vec<usize>,
+    pub ranks: Vec<usize>,        // rank of d_i, i in 0..L
+    pub diags: Vec<Vec<O>>,       // planted diagonal of d_i (non-zero entries, not chained)
+    pub d: Vec<OMat<O>>,          // d_i : n_{i+1} x n_i
+}
+
+pub fn planted_complex<T>(rng: &mut Rng, len: usize, max_dim: usize, mag: Mag, torsion_pct: usize, mix: usize, palette: &[T::O]) -> PlantedComplex<T::O>
+where T: Bridge, T::O: OEuc {
+    let dims: Vec<usize> = (0..=len).map(|_| if rng.chance(1, 10) { 0 } else { rng.urange(0, max_dim) }).collect();
+    let mut ranks = vec![0usize; len];
+    for i in 0..len {
+        let used = if i > 0 { ranks[i - 1] } else { 0 };
+        let cap = (dims[i] - used.min(dims[i])).min(dims[i + 1]);
+        ranks[i] = if cap == 0 { 0 } else { rng.urange(0, cap) };
+    }
+    let units = T::O::unit_samples();
+    let mut diags = vec![];
+    let mut d = vec![];
+    let bases: Vec<(OMat<T::O>, OMat<T::O>)> = dims.iter().map(|&n| { let st = if mix == 0 { 0 } else { rng.urange(0, mix * n.max(1)) }; rand_unimodular::<T>(rng, n, st, mag) }).collect();
+    for i in 0..len {
+        let (n0, n1, r) = (dims[i], dims[i + 1], ranks[i]);
+        let mut e = OMat::<T::O>::zero(n1, n0);
+        let mut diag = vec![];
+        for k in 0..r {
+            let x = if rng.below(100) < torsion_pct && !palette.is_empty() { rng.choose(palette).clone() } else { rng.choose(&units).clone() };
+            e.set(k, n0 - r + k, x.clone());
+            diag.push(x);
+        }
+        diags.push(diag);
+        // d_i = P_{i+1}^-1 E_i P_i
+        d.push(bases[i + 1].1.mul(&e).mul(&bases[i].0));
+    }
+    PlantedComplex { dims, ranks, diags, d }
+}
